@@ -67,6 +67,9 @@ func init() {
 			}
 		}
 		if r.unknownViolations() == 0 {
+			consistencyHammer(r, "[C02]") // incl. another login's authorization code presented under an attacker's own session while the victim's callback is in progress
+		}
+		if r.unknownViolations() == 0 {
 			ownKeySets(r, "[C02]") // the real key provider shared by several filters with different key sets
 		}
 		if r.unknownViolations() > 0 {
@@ -108,6 +111,11 @@ func init() {
 		runHistories(r, profile{Hostile: 5, Faults: 2, Attack: 6, Logout: 8, Ticks: 8, OddConfig: true, Histories: scale(r, 80, 2000), Length: 30}, histRule)
 	}
 	checks["C14"] = func(r *Run) {
+		wireHammer(r, "[C14]") // answers as they ARRIVE from the real gRPC server while other users' allowed requests get their tokens injected
+		if r.unknownViolations() > 0 {
+			r.Finish("logged-in and anonymous browsers asking the real gRPC server at the same time")
+			return
+		}
 		runHistories(r, profile{Hostile: 35, Faults: 25, Attack: 15, Logout: 8, Ticks: 15, OddRequest: true, Histories: scale(r, 60, 1500), Length: 45}, histRule)
 	}
 	checks["C15"] = func(r *Run) {
